@@ -1054,22 +1054,26 @@ func c04Padding(c *Ctx, wwa *ssa.Function, ws *types.Named) {
 	}
 	padL := linTerm(p.canon(pad))
 	arms := 0
-	for _, ret := range returnsOf(wwa) {
-		arm := alignArm(ret.Block())
-		if arm == "" {
-			continue
-		}
-		arms++
-		parts := concatParts(results(ret)[0])
-		nS := 0
-		posS := -1
-		sum := linConst(0)
-		okParts := true
-		var counts []lin
-		for i, part := range parts {
+	// one (before, after) pair of space counts per alignment arm: read off the concatenation in each arm of the
+	// function itself, or - when one concatenation serves all arms - off the arms of the helper that computes the pair
+	type split struct {
+		arm           string
+		before, after lin
+		pr            *prover
+		padL          lin
+		pos           token.Pos
+		fn            *ssa.Function
+		ok            bool
+		why           string
+	}
+	var splits []split
+	partsOf := func(ret *ssa.Return) (before, after []ssa.Value, nS int, okParts bool) {
+		okParts = true
+		seenS := false
+		for _, part := range concatParts(results(ret)[0]) {
 			if isS(part) {
 				nS++
-				posS = i
+				seenS = true
 				continue
 			}
 			cntV, ok := spaceRun(part)
@@ -1077,43 +1081,97 @@ func c04Padding(c *Ctx, wwa *ssa.Function, ws *types.Named) {
 				okParts = false
 				continue
 			}
-			cnt := p.linOf(cntV)
-			counts = append(counts, cnt)
-			sum = sum.add(cnt)
+			if seenS {
+				after = append(after, cntV)
+			} else {
+				before = append(before, cntV)
+			}
 		}
-		ok := okParts && nS == 1 && sum.String() == padL.String()
-		why := fmt.Sprintf("text occurrences: %d, pad total: %s (want %s)", nS, sum.String(), padL.String())
-		switch arm {
-		case "Left":
-			ok = ok && posS == 0
-		case "Right":
-			ok = ok && posS == len(parts)-1
-		case "Center":
-			ok = ok && len(parts) == 3 && posS == 1
-			if ok {
-				// left count is pad/2 (a quotient term q with 2q <= pad), right = pad - q
-				left := counts[0]
+		return
+	}
+	sumOf := func(pr *prover, vs []ssa.Value) lin {
+		out := linConst(0)
+		for _, v := range vs {
+			out = out.add(pr.linOf(v))
+		}
+		return out
+	}
+	for _, ret := range returnsOf(wwa) {
+		arm := alignArm(ret.Block())
+		bv, av, nS, okParts := partsOf(ret)
+		if arm != "" {
+			splits = append(splits, split{arm: arm, before: sumOf(p, bv), after: sumOf(p, av), pr: p, padL: padL, pos: ret.Pos(), fn: wwa, ok: okParts && nS == 1,
+				why: fmt.Sprintf("text occurrences: %d", nS)})
+			continue
+		}
+		// a single concatenation for all arms: counts are results of a helper called with the pad
+		if !okParts || nS != 1 || len(bv) != 1 || len(av) != 1 {
+			continue
+		}
+		exB, okB := bv[0].(*ssa.Extract)
+		exA, okA := av[0].(*ssa.Extract)
+		if !okB || !okA || exB.Tuple != exA.Tuple {
+			continue
+		}
+		hc, isCall := exB.Tuple.(*ssa.Call)
+		if !isCall || hc.Call.StaticCallee() == nil || hc.Call.StaticCallee().Blocks == nil || !inModule(hc.Call.StaticCallee()) {
+			continue
+		}
+		h := hc.Call.StaticCallee()
+		ph := c.Idx().proverFor(h)
+		var hPad lin
+		found := false
+		for k, a := range hc.Call.Args {
+			if k < len(h.Params) && p.canon(a) == p.canon(pad) {
+				hPad, found = linTerm(ph.canon(h.Params[k])), true
+			}
+		}
+		if !found {
+			continue
+		}
+		for _, hr := range returnsOf(h) {
+			arm := alignArm(hr.Block())
+			if arm == "" {
+				continue
+			}
+			rv := results(hr)
+			splits = append(splits, split{arm: arm, before: ph.linOf(rv[exB.Index]), after: ph.linOf(rv[exA.Index]), pr: ph, padL: hPad, pos: hr.Pos(), fn: h, ok: true})
+		}
+	}
+	for _, sp := range splits {
+		arms++
+		ok, why := sp.ok, sp.why
+		isZero := func(l lin) bool { return l.isConst() && l.k == 0 }
+		if ok {
+			switch sp.arm {
+			case "Left":
+				ok = isZero(sp.before) && sp.after.String() == sp.padL.String()
+				why = fmt.Sprintf("before: %s, after: %s (want 0 and %s)", sp.before.String(), sp.after.String(), sp.padL.String())
+			case "Right":
+				ok = isZero(sp.after) && sp.before.String() == sp.padL.String()
+				why = fmt.Sprintf("before: %s, after: %s (want %s and 0)", sp.before.String(), sp.after.String(), sp.padL.String())
+			case "Center":
+				// before is pad/2 (a quotient term), after = pad - before
 				isQuo := false
-				if len(left.coef) != 1 || left.k != 0 {
-					left = linConst(0)
-				}
-				for t, cf := range left.coef {
-					if cf != 1 {
-						continue
-					}
-					if v, has := p.termIndex().ints[t]; has {
-						if bo, isB := v.(*ssa.BinOp); isB && bo.Op == token.QUO {
-							if k, isK := constInt(bo.Y); isK && k == 2 && p.linOf(bo.X).String() == padL.String() {
-								isQuo = true
+				if len(sp.before.coef) == 1 && sp.before.k == 0 {
+					for t, cf := range sp.before.coef {
+						if cf != 1 {
+							continue
+						}
+						if v, has := sp.pr.termIndex().ints[t]; has {
+							if bo, isB := v.(*ssa.BinOp); isB && bo.Op == token.QUO {
+								if k, isK := constInt(bo.Y); isK && k == 2 && sp.pr.linOf(bo.X).String() == sp.padL.String() {
+									isQuo = true
+								}
 							}
 						}
 					}
 				}
-				ok = isQuo
+				ok = isQuo && sp.after.String() == sp.padL.sub(sp.before).String()
 				why = "centre: the left share must be pad/2 and the right share the rest (odd space on the right)"
 			}
 		}
-		r.Check("R04.3", name, "alignment "+arm+": text once, padded on the documented side(s) by exactly pad", ret.Pos(), ok, why)
+		r.Check("R04.3", FuncName(sp.fn), "alignment "+sp.arm+": text once, padded on the documented side(s) by exactly pad", sp.pos, ok, why)
 	}
 	r.Floor("R04.3", "alignment arms", arms, 3)
 	// unset alignment means left
